@@ -970,7 +970,8 @@ pub fn gen_headers(rng: &mut Rng) -> Vec<(String, String)> {
 /// feed a sequence of QUIC datagrams to a fresh Fragments<Frame> (5 s reassembly timeout, no timer calls)
 pub fn op_rfr(dgrams: &[Vec<u8>]) -> (String, String) {
     use crate::common::fragment::Fragments;
-    let case = format!("RFR {}", segs_s(dgrams));
+    // (`-` is one empty datagram here; no datagram at all is `none`)
+    let case = if dgrams.is_empty() { "RFR none".to_string() } else { format!("RFR {}", segs_s(dgrams)) };
     let r = no_panic(|| {
         let mut f: Fragments<Frame> = Fragments::new(std::time::Duration::from_secs(3600));
         let mut o = vec![];
